@@ -14,7 +14,9 @@ EXPLANATION = (
     "value transformed with key (self.frame_id, BASE_LINK); other frame & no transforms -> raise}, the filter predicate compares only "
     "ego-relative x / y / distance (raw position only under frame_id == BASE_LINK), PlaneDistanceMatching ranks ground-truth corners by "
     "their ego distance via the same key; (4) R-SIGNEDYAW – the heading is the signed yaw in both branches; the APH weight may use an "
-    "identity transform only because it is a difference of two headings taken with the same transform. Does not decide: numerical "
+    "identity transform only because it is a difference of two headings taken with the same transform; (5) the transform registry answers X->Y from the "
+    "registered matrix or from the inverse of Y->X computed on demand and a lookup never writes the registry (a cached derived entry would go stale when the ego pose "
+    "of a copied / interpolated frame is replaced, making map-frame and ego-frame evaluations disagree). Does not decide: numerical "
     "agreement of two executions, pyquaternion / numpy semantics."
 )
 
@@ -29,3 +31,5 @@ def run(ctx: Ctx) -> None:
     ctx.run(FR.rule_aph_weight, "C07-aph-same-transform")
     ctx.run(GE.rule_plane, True)
     ctx.run(C10.rule_predicate)
+    from rules import C18
+    ctx.run(C18.rule_registry)  # X->Y is answered from the registered matrix or the inverse of Y->X computed on demand; a lookup never stores a derived entry that a later update could leave stale
